@@ -19,6 +19,16 @@ RULE = (
     "(mapping key x flag subsets x width x precision x length modifier x all conversion types + 2 invalid ones, "
     "1-3 specifiers, str and bytes) crossed with scalar/tuple/dict argument literals; str.format templates are "
     "enumerated over auto/numbered/named fields, attribute/index paths, conversions, specs, escapes, broken braces. "
+    "NESTED SPECS: every template of 1-3 top-level fields (auto / 0 / 1 / keyword) whose format spec holds 0-2 nested "
+    "replacement fields (auto / numbered / keyword, optionally with a path or conversion), i.e. every numbering style at "
+    "both levels, plus three-level nesting, each with k-1, k, k+1 positional arguments (k = what CPython consumes) and "
+    "keywords present/absent. "
+    "UNIONS OF LITERALS: the right operand of % / one or two arguments of .format is a union of 2-3 literals, written "
+    "as a conditional expression or as a variable assigned in the branches of an if: exhaustive ordered pairs (and "
+    "sampled triples) of dict literals over key subsets of {a,b,c} + a non-str key + wrong-typed values + non-mapping "
+    "members for mapping-key templates; ordered pairs of scalars/tuples of different lengths for positional templates; "
+    "random multi-specifier templates with 2-3 alternative argument literals; .format calls whose arguments are unions. "
+    "CPython is run once per member; every member is also checked on its own line (differential: union vs members). "
     "Non-trivial = has at least one conversion specifier / replacement field; distinct by (template, args) text; "
     "both outcomes (raises / succeeds) counted per conversion type."
 )
@@ -28,13 +38,20 @@ ASSUMPTIONS = [
     "and non-empty args; R2 %% with flags/width/precision/key; R3 mixing mapping-key and positional/* specifiers; "
     "R4 .format arguments that no field uses; R5 use_fstrings/missing_f suggestions (other codes)",
     "diagnosed = bad_format_string / incompatible_call / incompatible_argument on the expression's line",
+    "union operand: 'CPython would raise' = it raises for at least one member of the union (each member is a possible "
+    "execution); 'formatting succeeds' = it succeeds for every member",
+    "R4 is only an excuse when every argument it names really is unused: CPython formats the template with recording "
+    "probe objects in place of the arguments and the named indices/keywords must not have been touched",
 ]
 FLOORS = {
-    "quick": {"distinct_nontrivial": 15000, "percent_cases": 15000, "format_cases": 3000, "cpython_raised": 1000, "cpython_ok": 1000},
-    "thorough": {"distinct_nontrivial": 150000, "percent_cases": 150000, "format_cases": 20000},
+    "quick": {"distinct_nontrivial": 15000, "percent_cases": 15000, "format_cases": 3000, "cpython_raised": 1000, "cpython_ok": 1000,
+              "union_cases": 1, "nested_spec_cases": 1, "r4_probe_checked": 1},
+    "thorough": {"distinct_nontrivial": 150000, "percent_cases": 150000, "format_cases": 20000,
+                 "union_cases": 1, "nested_spec_cases": 1, "r4_probe_checked": 1},
 }
 CODES = {"bad_format_string", "incompatible_call", "incompatible_argument"}
 BATCH = 250
+UNIONS_PER_FUNCTION = 10
 
 LINT_RULES = [
     ("R1", re.compile(r"use of % on string with no conversion specifiers")),
@@ -73,6 +90,91 @@ OBJ = Obj()
 
 def spec_text(key, flags, width, prec, lenmod, conv) -> str:
     return "%" + (f"({key})" if key else "") + flags + width + prec + lenmod + conv
+
+
+# ---- operands / arguments whose inferred value is a UNION of literals ------------------------------------
+UNION_SHAPES = ["ifexp", "ifstmt"]
+CONDS = ["c0", "c1", "c2", "c3", "c4", "c5"]  # parameters of holder(): bool, value unknown to pyanalyze
+HOLDER_DEF = "def holder(" + ", ".join(f"{c}: bool" for c in CONDS) + "):"
+
+
+def union_case(kind: str, parts, member_lists, shape: str, feat: str) -> dict:
+    """A case whose expression has union-valued holes.  parts = the literal source pieces around the holes
+    (len(member_lists) + 1 of them); member_lists[h] = the 2-3 alternative literal sources of hole h.
+    shape 'ifexp': the hole is a conditional expression; 'ifstmt': a variable assigned in every branch of an
+    if/elif/else just before.  Distinct holes use distinct conditions (pyanalyze does not correlate them, and
+    neither may the oracle).  'members' = one CPython expression per combination of alternatives."""
+    assert len(parts) == len(member_lists) + 1
+    conds = iter(CONDS)
+    pre, fills = [], []
+    for h, members in enumerate(member_lists):
+        assert len(members) >= 2
+        cs = [next(conds) for _ in members[:-1]]
+        if shape == "ifexp":
+            e = members[-1]
+            for c, m in zip(reversed(cs), reversed(members[:-1])):
+                e = f"{m} if {c} else {e}"
+            fills.append(f"({e})")
+        else:
+            var = f"u{h}"
+            for j, m in enumerate(members):
+                pre.append("else:" if j == len(members) - 1 else f"{'if' if j == 0 else 'elif'} {cs[j]}:")
+                pre.append(f"    {var} = {m}")
+            fills.append(var)
+    expr = parts[0] + "".join(f + p for f, p in zip(fills, parts[1:]))
+    combos = [parts[0] + "".join(m + p for m, p in zip(combo, parts[1:])) for combo in itertools.product(*member_lists)]
+    return {"kind": kind, "expr": expr, "pre": pre, "members": combos, "feature": feat, "shape": shape}
+
+
+# dict literals for mapping-key templates: every key subset of {a, b, c}; a non-str literal key alone / next to a
+# str key; wrong-typed values; and two non-mapping members
+MAP_MEMBERS = [
+    "{}", "{'a': 1}", "{'b': 2}", "{'c': 3}", "{'a': 1, 'b': 2}", "{'a': 1, 'c': 3}", "{'b': 2, 'c': 3}",
+    "{'a': 1, 'b': 2, 'c': 3}", "{1: 1}", "{'a': 1, 1: 1}", "{'a': 'x'}", "{'a': 'x', 'b': 2}", "1", "(1,)",
+]
+MAP_TEMPLATES = ["%(a)s", "%(a)s %(b)s", "%(a)d", "%(a)s %%", "%(a)d/%(a)s"]
+SEQ_MEMBERS = ["1", "'x'", "1.5", "None", "()", "(1,)", "(1, 2)", "(1, 'x')", "('x', 1)", "[1]"]
+SEQ_TEMPLATES = ["%s", "%d", "%s %s", "%s %d", "%*d", "%c", "%s %%"]
+
+
+def _bytes_keys(member: str) -> str:
+    return member.replace("'a'", "b'a'").replace("'b'", "b'b'").replace("'c'", "b'c'")
+
+
+def gen_percent_unions(ctx):
+    """Systematic (seed-independent, sharded with ctx.mine): mapping-key templates x ORDERED pairs of distinct
+    members of MAP_MEMBERS (both shapes), sampled ordered triples; positional templates x ordered pairs of
+    SEQ_MEMBERS; bytes templates with bytes keys for the key-subset members."""
+    out = []
+    idx = 0
+    quick = ctx.tier == "quick"
+    for ti, text in enumerate(MAP_TEMPLATES):
+        for n, (m1, m2) in enumerate(itertools.permutations(MAP_MEMBERS, 2)):
+            for si, shape in enumerate(UNION_SHAPES):
+                idx += 1
+                # quick tier: both shapes for the first two templates, alternating shapes for the others
+                if ctx.mine(idx) and (not quick or ti < 2 or (n + ti) % 2 == si):
+                    out.append(union_case("percent", [repr(text) + " % ", ""], [[m1, m2]], shape, "union:map2"))
+        # ordered triples: all of them over the key-subset members for the first two templates (thorough),
+        # every 7th (rotated by the seed) in the quick tier
+        for n, (m1, m2, m3) in enumerate(itertools.permutations(MAP_MEMBERS[:10], 3)):
+            idx += 1
+            if not ctx.mine(idx) or ti > 1 or (quick and (n + ctx.seed) % 7):
+                continue
+            out.append(union_case("percent", [repr(text) + " % ", ""], [[m1, m2, m3]], UNION_SHAPES[n % 2], "union:map3"))
+    for text in MAP_TEMPLATES[:2]:
+        for m1, m2 in itertools.permutations(MAP_MEMBERS[:8], 2):
+            idx += 1
+            if ctx.mine(idx):
+                out.append(union_case("percent", ["b" + repr(text) + " % ", ""], [[_bytes_keys(m1), _bytes_keys(m2)]],
+                                      UNION_SHAPES[idx % 2], "union:map2:bytes"))
+    for text in SEQ_TEMPLATES:
+        for m1, m2 in itertools.permutations(SEQ_MEMBERS, 2):
+            for si, shape in enumerate(UNION_SHAPES):
+                idx += 1
+                if ctx.mine(idx) and (si == 0 or not quick or idx % 3 == 0):
+                    out.append(union_case("percent", [repr(text) + " % ", ""], [[m1, m2]], shape, "union:seq2"))
+    return out
 
 
 def gen_percent(ctx, n_random: int):
@@ -136,15 +238,16 @@ def gen_percent(ctx, n_random: int):
             text += rng.choice([" %", " 100%", "%(a", " % s"])
         tsrc = ("b" if is_bytes else "") + repr(text)
         nargs = sum(1 + (s[2] == "*") + (s[3] == "*") for s in specs if s[5] != "%")
-        r = rng.random()
-        if use_map:
-            keys = rng.sample(["a", "b", "c", "d"], rng.randrange(0, 4))
-            if is_bytes and rng.random() < 0.7:
-                items = ", ".join(f"b{k!r}: {rng.choice(SCALARS)}" for k in keys)
-            else:
-                items = ", ".join(f"{k!r}: {rng.choice(SCALARS)}" for k in keys)
-            args = "{" + items + "}" if r < 0.85 else rng.choice(SCALARS)
-        else:
+
+        def make_args():
+            r = rng.random()
+            if use_map:
+                keys = rng.sample(["a", "b", "c", "d"], rng.randrange(0, 4))
+                if is_bytes and rng.random() < 0.7:
+                    items = ", ".join(f"b{k!r}: {rng.choice(SCALARS)}" for k in keys)
+                else:
+                    items = ", ".join(f"{k!r}: {rng.choice(SCALARS)}" for k in keys)
+                return "{" + items + "}" if r < 0.85 else rng.choice(SCALARS)
             k = nargs if r < 0.6 else max(0, nargs + rng.choice([-1, 1, 2]))
             vals = []
             for s in specs:
@@ -158,10 +261,21 @@ def gen_percent(ctx, n_random: int):
                 vals.append(rng.choice(good) if rng.random() < 0.7 else rng.choice(SCALARS))
             vals = (vals + [rng.choice(SCALARS) for _ in range(4)])[:k]
             if len(vals) == 1 and rng.random() < 0.5:
-                args = vals[0]
-            else:
-                args = "(" + "".join(v + ", " for v in vals) + ")"
-        out.append((tsrc, args, "multi:" + "".join(s[5] for s in specs) + (":map" if use_map else "")))
+                return vals[0]
+            return "(" + "".join(v + ", " for v in vals) + ")"
+
+        feat = "multi:" + "".join(s[5] for s in specs) + (":map" if use_map else "")
+        if rng.random() < 0.08:
+            # the right operand is a union of 2-3 alternative argument literals
+            members = []
+            for _ in range(rng.choice([2, 2, 3])):
+                a = make_args()
+                if a not in members:
+                    members.append(a)
+            if len(members) >= 2:
+                out.append(union_case("percent", [tsrc + " % ", ""], [members], rng.choice(UNION_SHAPES), "union:" + feat))
+                continue
+        out.append((tsrc, make_args(), feat))
     return out
 
 
@@ -196,9 +310,138 @@ def gen_format(ctx, n_random: int):
         npos = rng.randrange(0, 4)
         pos = [rng.choice(FORMAT_ARGS) for _ in range(npos)]
         kws = [f"{k}={rng.choice(FORMAT_ARGS)}" for k in rng.sample(["a", "b", "w"], rng.randrange(0, 3))]
-        call = f"{text!r}.format({', '.join(pos + kws)})"
+        allargs = pos + kws
+        if allargs and rng.random() < 0.08:
+            # one (sometimes two) of the arguments is a union of two literals
+            holes = sorted(rng.sample(range(len(allargs)), 2 if len(allargs) > 1 and rng.random() < 0.25 else 1))
+            parts, member_lists, cur = [], [], f"{text!r}.format("
+            for j, a in enumerate(allargs):
+                prefix, _, val = a.rpartition("=")
+                cur += (", " if j else "") + (prefix + "=" if prefix else "")
+                if j in holes:
+                    parts.append(cur)
+                    cur = ""
+                    other = rng.choice([x for x in FORMAT_ARGS if x != val])
+                    member_lists.append([val, other])
+                else:
+                    cur += val
+            parts.append(cur + ")")
+            out.append(union_case("format", parts, member_lists, rng.choice(UNION_SHAPES), "fmt-union"))
+            continue
+        call = f"{text!r}.format({', '.join(allargs)})"
         feat = "broken" if any(b in text for b in ()) else "fmt"
         out.append((call, feat, text))
+    return out
+
+
+NEST_TOP = ["", "0", "1", "a"]
+
+
+def _nested_specs(nest_names, with_decor: bool):
+    """Format specs holding 0, 1 or 2 nested replacement fields over the given nested field names."""
+    specs = [("", [])]
+    for n1 in nest_names:
+        specs.append((":{" + n1 + "}", [n1]))
+        if with_decor:
+            specs.append((":>{" + n1 + "}", [n1]))
+            specs.append((":{" + n1 + "!r}", [n1]))
+            specs.append((":{" + n1 + ".real}", [n1]))
+        for n2 in nest_names:
+            specs.append((":{" + n1 + "}{" + n2 + "}", [n1, n2]))
+    return specs
+
+
+def _consumed(names) -> int:
+    """Number of positional arguments CPython needs: automatic fields are numbered in order of appearance over
+    BOTH levels; a numbered field n needs n + 1."""
+    autos = sum(1 for n in names if n == "")
+    manual = max([int(n) + 1 for n in names if n.isdigit()] or [0])
+    return max(autos, manual)
+
+
+def gen_format_nested(ctx):
+    """Exhaustive small space of templates with replacement fields INSIDE format specs, every numbering style
+    (auto / numbered / keyword) at both levels: 1 field (names {auto,0,1,a} x nested names {auto,0,1,2,w},
+    decorated), 2 fields and 3 fields (nested names {auto,1,w}; the 3-field space is thinned in the quick tier,
+    rotated by the seed), three-level nesting; each with k-1, k, k+1 positional arguments (k-1, k for 2 fields in
+    the quick tier and for 3 fields / three levels) where k is what CPython consumes, keywords a and w given (and, for one field, also withheld).  All argument values are 3, which is a
+    valid width / fill-less spec, so a CPython error is about argument lookup or numbering, not the spec text.
+    Seed-independent apart from the thinning; sharded with ctx.mine."""
+    out = []
+    idx = 0
+    quick = ctx.tier == "quick"
+
+    def emit(text, names, kwsets, feat, deltas=(-1, 0, 1)):
+        nonlocal idx
+        k = _consumed(names)
+        for d in deltas:
+            npos = k + d
+            if npos < 0:
+                continue
+            for kws in kwsets:
+                idx += 1
+                if ctx.mine(idx):
+                    args = ["3"] * npos + [f"{kw}=3" for kw in kws]
+                    out.append((f"{text!r}.format({', '.join(args)})", feat, text))
+
+    one = [(nm, sp) for nm in NEST_TOP for sp in _nested_specs(["", "0", "1", "2", "w"], True)]
+    small = [(nm, sp) for nm in NEST_TOP for sp in _nested_specs(["", "1", "w"], False)]
+    for nm, (sp, inner) in one:
+        emit("{" + nm + sp + "}", [nm] + inner, [("a", "w"), ()], "fmt-nested1")
+    for (n1, (s1, i1)), (n2, (s2, i2)) in itertools.product(small, repeat=2):
+        if not i1 and not i2:
+            continue  # no nested field at all: gen_format_systematic's space
+        emit("{" + n1 + s1 + "}|{" + n2 + s2 + "}", [n1] + i1 + [n2] + i2, [("a", "w")], "fmt-nested2", deltas=(-1, 0) if quick else (-1, 0, 1))
+    tiny = [(nm, sp) for nm in ["", "0", "a"] for sp in [("", []), (":{}", [""]), (":{1}", ["1"]), (":{w}", ["w"]), (":{}{}", ["", ""])]]
+    for n, fields in enumerate(itertools.product(tiny, repeat=3)):
+        if not any(i for _, (_, i) in fields) or (quick and (n + ctx.seed) % 4):
+            continue
+        text = "".join("{" + nm + sp + "}" for nm, (sp, _) in fields)
+        names = [x for nm, (_, i) in fields for x in [nm] + i]
+        emit(text, names, [("a", "w")], "fmt-nested3", deltas=(-1, 0))
+    # three levels: CPython refuses to expand a replacement field inside the spec of a nested field
+    for a, b, c in itertools.product(["", "0", "a"], ["", "1", "w"], ["", "2", "w"]):
+        for tail in ("", "|{}"):
+            text = "{" + a + ":{" + b + ":{" + c + "}}}" + tail
+            emit(text, [a, b, c] + ([""] if tail else []), [("a", "w")], "fmt-nested-deep", deltas=(-1, 0))
+    return out
+
+
+def gen_format_unions(ctx):
+    """Systematic: templates from the small nested/plain space whose positional or keyword arguments are unions of
+    two literals (3 | 4, or 3 | 'x'), one or two union arguments per call, both shapes (thinned for two union
+    arguments in the quick tier)."""
+    out = []
+    idx = 0
+    quick = ctx.tier == "quick"
+    templates = ["{}", "{} {}", "{0} {1}", "{:{}}", "{:{}}|{}", "{:>{}}{:>{}}", "{a:{}}{}", "{0:{1}}|{2}", "{a} {w}", "{:{w}}|{}",
+                 "{0} {}", "{:{:{}}}", "{0.real}", "{a.real}{}"]
+    for text in templates:
+        names = re.findall(r"\{([0-9a-z]*)", text)
+        k = _consumed(names)
+        for npos in (k - 1, k, k + 1):
+            if npos < 0:
+                continue
+            slots = [None] * npos + ["a", "w"]
+            for hn, holes in enumerate(list(itertools.combinations(range(len(slots)), 1)) + list(itertools.combinations(range(len(slots)), 2))):
+                for ai, alt in enumerate(("4", "'x'")):
+                    for si, shape in enumerate(UNION_SHAPES):
+                        idx += 1
+                        if not ctx.mine(idx):
+                            continue
+                        if quick and len(holes) == 2 and (ai or hn % 2 != si):
+                            continue  # quick tier: two union arguments only as 3 | 4, alternating shapes
+                        parts, member_lists, cur = [], [], f"{text!r}.format("
+                        for j, kw in enumerate(slots):
+                            cur += (", " if j else "") + (kw + "=" if kw else "")
+                            if j in holes:
+                                parts.append(cur)
+                                cur = ""
+                                member_lists.append(["3", alt])
+                            else:
+                                cur += "3"
+                        parts.append(cur + ")")
+                        out.append(union_case("format", parts, member_lists, shape, "fmt-union-systematic"))
     return out
 
 
@@ -241,6 +484,7 @@ MISSED_MECHS = [
     ("format", r"AttributeError: .* has no attribute|IndexError: .*index out of range|KeyError: |TypeError: .* is not subscriptable|TypeError: .* indices must be integers", "field-path-not-validated"),
     ("format", r"TypeError: unsupported format string passed to|ValueError: Unknown format code|ValueError: Invalid format specifier|ValueError: Precision not allowed|ValueError: Cannot specify|ValueError: Sign not allowed|ValueError: Alternate form|ValueError: Format specifier missing precision|ValueError: Invalid conversion specification", "format-spec-not-validated"),
     ("format", r"ValueError: cannot switch from (automatic|manual) field", "auto-manual-numbering-mix"),
+    ("format", r"ValueError: Max string recursion exceeded", "spec-nesting-deeper-than-two-levels"),
 ]
 SPURIOUS_MECHS = [
     ("percent", r"%[eEfFgG] conversion specifier accepts numbers, not", r"\bFLT\b", "supports-float-object"),
@@ -258,7 +502,20 @@ def missed_mechanism(kind: str, src: str, exc) -> str:
     for k, rx, mech in MISSED_MECHS:
         if k == kind and re.search(rx, text):
             return mech
+    if kind == "percent" and isinstance(exc, KeyError) and _has_non_str_dict_key(src):
+        return "non-str-literal-key-disables-missing-key-report"
     return f"{type(exc).__name__}|{norm_msg(str(exc))}"
+
+
+def _has_non_str_dict_key(src: str) -> bool:
+    """The right operand of the % expression is a dict display with a literal key that is not a str."""
+    try:
+        node = ast.parse(src, mode="eval").body
+    except SyntaxError:
+        return False
+    if not (isinstance(node, ast.BinOp) and isinstance(node.right, ast.Dict)):
+        return False
+    return any(k is not None and not (isinstance(k, ast.Constant) and isinstance(k.value, str)) for k in node.right.keys)
 
 
 def spurious_mechanism(kind: str, src: str, desc: str) -> str:
@@ -269,69 +526,199 @@ def spurious_mechanism(kind: str, src: str, desc: str) -> str:
 
 
 def norm_msg(d: str) -> str:
+    d = re.sub(r"(No value specified for keys) .*", r"\1 K", d)
     d = re.sub(r"Literal\[.*?\]|'[^']*'", "X", d)
     d = re.sub(r"\d+", "#", d)
     return d[:70]
 
 
-def check_exprs(ctx, exprs, kind: str) -> None:
-    """exprs: list of (expr_source, feature)"""
-    lines = [PRELUDE, "def holder():"]
-    base = PRELUDE.count("\n") + 2
-    for i, (src, feat) in enumerate(exprs):
-        lines.append(f"    ({src})")
+def as_case(kind: str, item) -> dict:
+    """(expr, feature) -> the general case form {"kind", "expr", "feature"[, "pre", "members", "shape"]}."""
+    if isinstance(item, dict):
+        return item
+    return {"kind": kind, "expr": item[0], "feature": item[1]}
+
+
+class _Probe:
+    """Stands in for a .format argument and records that CPython touched it."""
+
+    def __init__(self, tag, used):
+        self._tag, self._used = tag, used
+
+    def _touch(self):
+        self._used.add(self._tag)
+
+    def __format__(self, spec):
+        self._touch()
+        return "3"
+
+    def __str__(self):
+        self._touch()
+        return "3"
+
+    __repr__ = __str__
+
+    def __getattr__(self, name):
+        if name.startswith("__"):
+            raise AttributeError(name)
+        self._touch()
+        return self
+
+    def __getitem__(self, item):
+        self._touch()
+        return self
+
+
+def r4_names_used_argument(src: str, desc: str):
+    """The 'argument(s) ... were not used' rule is an excuse only for arguments CPython really ignores.  Returns
+    the list of named-but-used arguments (empty = rule applies), or None when the call cannot be probed."""
+    try:
+        call = ast.parse(src, mode="eval").body
+        if not (isinstance(call, ast.Call) and isinstance(call.func, ast.Attribute) and isinstance(call.func.value, ast.Constant)
+                and isinstance(call.func.value.value, str)):
+            return None
+        if any(isinstance(a, ast.Starred) for a in call.args) or any(k.arg is None for k in call.keywords):
+            return None
+        used = set()
+        call.func.value.value.format(*[_Probe(i, used) for i in range(len(call.args))],
+                                     **{k.arg: _Probe(k.arg, used) for k in call.keywords})
+    except Exception:  # noqa: BLE001
+        return None
+    m = re.search(r"(Numbered|Named) argument\(s\) (.*) were not used", desc)
+    if not m:
+        return None
+    named = [x.strip() for x in m.group(2).split(",")]
+    named = [int(x) if m.group(1) == "Numbered" else x for x in named]
+    return [x for x in named if x in used]
+
+
+def _cpython(src: str, ns):
+    with warnings.catch_warnings():
+        warnings.simplefilter("ignore")
+        try:
+            return None, eval(src, ns)
+        except Exception as e:  # noqa: BLE001
+            return e, None
+
+
+def check_exprs(ctx, items, kind: str) -> None:
+    """items: (expr_source, feature) tuples or union-case dicts (see union_case).  Every member expression of a
+    union case is also put on a line of its own (once per batch) and judged as an ordinary case."""
+    cases = [as_case(kind, it) for it in items]
+    if not cases:
+        return
+    seen = {c["expr"] for c in cases if "members" not in c}
+    for c in list(cases):
+        for m in c.get("members", ()):
+            if m not in seen:
+                seen.add(m)
+                cases.append({"kind": kind, "expr": m, "feature": "member"})
+    lines = [PRELUDE, HOLDER_DEF]
+    in_fn = 0
+    for c in cases:
+        if "members" in c:
+            # every test of c0.. adds a constraint that later lookups of the name walk through: keep few per function
+            in_fn += 1
+            if in_fn > UNIONS_PER_FUNCTION:
+                lines.append(HOLDER_DEF)
+                in_fn = 1
+        for pre in c.get("pre", ()):
+            lines.append("    " + pre)
+        lines.append(f"    ({c['expr']})")
     source = "\n".join(lines) + "\n"
     tree = ast.parse(source)
     res = harness.run(source, tree=tree, annotate=True, keep_module=True, overrides={"use_fstrings": False})
     try:
         if res.exception is not None:
-            ctx.violation("harness|exception", f"check raised {res.exception!r}", {"kind": kind, "exprs": [e[0] for e in exprs]})
+            ctx.violation("harness|exception", f"check raised {res.exception!r}", {"kind": kind, "exprs": [c["expr"] for c in cases]})
             return
         by_line = res.by_line()
         ns = res.module.__dict__
-        holder = next(n for n in tree.body if isinstance(n, ast.FunctionDef) and n.name == "holder")
-        stmts = holder.body
-        assert len(stmts) == len(exprs)
-        line_of = {i: stmts[i].lineno for i in range(len(exprs))}
-        for i, (src, feat) in enumerate(exprs):
-            ds = [d for d in by_line.get(line_of[i], []) if d.code in CODES]
-            with warnings.catch_warnings():
-                warnings.simplefilter("ignore")
-                try:
-                    value = eval(src, ns)
-                    raised = None
-                except Exception as e:  # noqa: BLE001
-                    raised = e
-                    value = None
+        stmts = [st for fn in tree.body if isinstance(fn, ast.FunctionDef) and fn.name == "holder" for st in fn.body if isinstance(st, ast.Expr)]
+        assert len(stmts) == len(cases)
+        diags = [[d for d in by_line.get(st.lineno, []) if d.code in CODES] for st in stmts]
+        single = {c["expr"]: i for i, c in enumerate(cases) if "members" not in c}
+        for i, c in enumerate(cases):
+            src, feat, ds = c["expr"], c["feature"], diags[i]
+            members = c.get("members")
+            is_union = members is not None
+            if is_union:
+                outcomes = [_cpython(m, ns) for m in members]
+                shown = ("; ".join(p.strip() for p in c["pre"]) + "; " if c["pre"] else "") + src
+                wit = {k: c[k] for k in ("kind", "expr", "pre", "members", "feature", "shape")}
+            else:
+                members = [src]
+                outcomes = [_cpython(src, ns)]
+                shown = src
+                wit = {"kind": kind, "expr": src, "feature": feat}
+            raising = [j for j, (e, _) in enumerate(outcomes) if e is not None]
             ctx.count("evaluations")
             ctx.count(f"{kind}_cases")
-            ctx.count("cpython_raised" if raised is not None else "cpython_ok")
-            ctx.nontrivial((kind, src))
-            ctx.histo("by_feature", f"{kind}:{feat.split(':')[0] if kind == 'percent' else feat}:{'raise' if raised is not None else 'ok'}:{'diag' if ds else 'clean'}")
-            wit = {"kind": kind, "expr": src, "feature": feat}
-            if raised is not None and not ds:
-                etype = type(raised).__name__
-                key = f"{kind}|missed|{missed_mechanism(kind, src, raised)}"
-                ctx.violation(key, f"{src}: CPython raises {etype}: {raised}; pyanalyze reports nothing", wit)
-            elif raised is None and ds:
-                non_lint = [d for d in ds if lint_rule(d.description) is None]
+            ctx.count("cpython_raised" if raising else "cpython_ok")
+            ctx.nontrivial((kind, shown))
+            fkey = feat.split(":")[0] if kind == "percent" else feat
+            ctx.histo("by_feature", f"{kind}:{fkey}:{'raise' if raising else 'ok'}:{'diag' if ds else 'clean'}")
+            if is_union:
+                ctx.count("union_cases")
+                ctx.histo("unions", f"{kind}:{c['shape']}:{len(members)}-members:{len(raising)}-raise:{'diag' if ds else 'clean'}")
+            if feat.startswith("fmt-nested"):
+                ctx.count("nested_spec_cases")
+            if raising and not ds:
+                # which member explains it?  one that is not diagnosed on its own line either -> the same defect as
+                # for the plain operand; otherwise the diagnosis was lost in the union
+                alone_missed = [j for j in raising if not diags[single[members[j]]]] if is_union else raising
+                j = (alone_missed or raising)[0]
+                exc = outcomes[j][0]
+                if alone_missed:
+                    key = f"{kind}|missed|{missed_mechanism(kind, members[j], exc)}"
+                else:
+                    key = f"{kind}|missed|union-only|{type(exc).__name__}"
+                ctx.violation(key, f"{shown}: CPython raises {type(exc).__name__}: {exc}" + (f" for {members[j]}" if is_union else "")
+                              + "; pyanalyze reports nothing", wit)
+            elif not raising and ds:
+                value = outcomes[0][1]
+                non_lint = []
                 for d in ds:
                     r = lint_rule(d.description)
+                    if r == "R4":
+                        bad = r4_names_used_argument(src, d.description) if not is_union else None
+                        if bad is not None:
+                            ctx.count("r4_probe_checked")
+                        if bad:
+                            non_lint.append((d, f"{kind}|spurious|unused-argument-rule-names-a-used-argument"))
+                            continue
                     if r:
                         ctx.histo("lint_rules_excused", r)
+                    else:
+                        non_lint.append((d, None))
                 if non_lint:
-                    key = f"{kind}|spurious|{spurious_mechanism(kind, src, non_lint[0].description)}"
-                    ctx.violation(key, f"{src}: CPython gives {value!r}; pyanalyze reports {non_lint[0].short()}", wit)
-            if raised is None:
-                inferred = getattr(stmts[i].value, "inferred_value", None)
-                if inferred is not None:
+                    d, key = non_lint[0]
+                    if key is None and is_union:
+                        # a member that draws a (non-lint) report on its own line -> same defect as the plain operand
+                        for m in members:
+                            alone = [x for x in diags[single[m]] if lint_rule(x.description) is None]
+                            if alone:
+                                key = f"{kind}|spurious|{spurious_mechanism(kind, m, alone[0].description)}"
+                                break
+                        else:
+                            key = f"{kind}|spurious|union-only|{norm_msg(d.description)}"
+                    elif key is None:
+                        key = f"{kind}|spurious|{spurious_mechanism(kind, src, d.description)}"
+                    ctx.violation(key, f"{shown}: CPython gives {value!r}" + (" (and succeeds for every member)" if is_union else "")
+                                  + f"; pyanalyze reports {d.short()}", wit)
+            inferred = getattr(stmts[i].value, "inferred_value", None)
+            if inferred is not None:
+                for e, value in outcomes:
+                    if e is not None:
+                        continue
                     ok = _type_matches(inferred, value)
                     ctx.count("result_type_checked")
                     if ok is False:
                         key = f"{kind}|wrong-type|{type(value).__name__}|{type(inferred).__name__}"
-                        ctx.violation(key, f"{src}: result is {type(value).__name__} but inferred {inferred}", wit)
+                        ctx.violation(key, f"{shown}: result is {type(value).__name__} but inferred {inferred}", wit)
+                        break
         if len(ctx.samples) < 3:
-            ctx.sample({"kind": kind, "expr": exprs[0][0]})
+            ctx.sample({"kind": kind, "expr": cases[0]["expr"]})
     finally:
         harness.forget_module(res.module)
 
@@ -358,21 +745,28 @@ def _type_matches(inferred, value):
 
 
 def shard(ctx) -> None:
-    pct = gen_percent(ctx, ctx.pick(700, 8000))
-    exprs = [(f"{t} % {a}", feat) for t, a, feat in pct]
-    for i in range(0, len(exprs), BATCH):
-        check_exprs(ctx, exprs[i : i + BATCH], "percent")
-    fmt = gen_format(ctx, ctx.pick(400, 4000)) + gen_format_systematic(ctx)
-    exprs = [(call, feat) for call, feat, _ in fmt]
-    for i in range(0, len(exprs), BATCH):
-        check_exprs(ctx, exprs[i : i + BATCH], "format")
+    pct = gen_percent(ctx, ctx.pick(700, 8000)) + gen_percent_unions(ctx)
+    items = [it if isinstance(it, dict) else (f"{it[0]} % {it[1]}", it[2]) for it in pct]
+    for i in range(0, len(items), BATCH):
+        check_exprs(ctx, items[i : i + BATCH], "percent")
+    fmt = gen_format(ctx, ctx.pick(400, 4000)) + gen_format_systematic(ctx) + gen_format_nested(ctx) + gen_format_unions(ctx)
+    items = [it if isinstance(it, dict) else (it[0], it[1]) for it in fmt]
+    for i in range(0, len(items), BATCH):
+        check_exprs(ctx, items[i : i + BATCH], "format")
 
 
 def replay(witness):
     from vp.core import Ctx
 
     ctx = Ctx(ID, "quick", 0, 0, 1)
-    check_exprs(ctx, [(witness["expr"], witness.get("feature", "x"))], witness["kind"])
+    if "members" in witness:
+        item = {k: witness[k] for k in ("kind", "expr", "pre", "members", "feature", "shape")}
+    else:
+        item = (witness["expr"], witness.get("feature", "x"))
+    check_exprs(ctx, [item], witness["kind"])
+    # a union case also judges its members on their own lines: report the union line's own verdict first
     for key, lst in ctx.violations.items():
-        return key, lst[0]["what"]
+        for v in lst:
+            if v["witness"].get("expr") == witness["expr"]:
+                return key, v["what"]
     return None
